@@ -62,6 +62,7 @@ func v2stdSub(sec byte, s uint8) bool {
 }
 
 // v2wfAll lists every clause of wf_pset the packet breaks (none: the wire format can represent it).
+// (The key-size limit of the multi-valued entries is implied by their own length rules.)
 func v2wfAll(p *psetv2.Pset) (l []string) {
 	bad := func(c bool, why string) {
 		if c {
